@@ -12,11 +12,13 @@ inductive Item where
   | bytes (field : String)                    -- a bytes-valued field, local or nested `pack()`
   | const (b : Bytes)                         -- a bytes literal
   | lenPlus (k : Nat) (field : String) (width : Nat)  -- `(k + len(<field>)).to_bytes(width, byteorder="little")`
+  | countOf (field : String) (width : Nat)    -- `len(self.<list field>).to_bytes(width, byteorder="little")`: how many elements
   deriving DecidableEq, Repr
 
 structure Env where
   ints : String → Nat
   bytes : String → R Bytes
+  counts : String → Nat := fun _ => 0
 
 def pack (env : Env) : List Item → R Bytes
   | [] => .ok []
@@ -39,6 +41,10 @@ def pack (env : Env) : List Item → R Bytes
   | .lenPlus k f w :: rest => do
     let x ← env.bytes f
     let a ← Py.toBytesLE ((k + x.length : Nat) : Int) w
+    let b ← pack env rest
+    pure (a ++ b)
+  | .countOf f w :: rest => do
+    let a ← Py.toBytesLE (env.counts f : Int) w
     let b ← pack env rest
     pure (a ++ b)
 
